@@ -213,10 +213,18 @@ def run_case(case):
         if bop is None:
             return {'evals': 0, 'violations': [], 'obs': {'not-applicable': 1}, 'sigs': [], 'sample': None}
         if bop == 'ASSIGN':
-            cands = [(i, o) for i, o in enumerate(ops[:pos]) if o['op'] == t]
-            numk = [(kw, k) for kw, lab, k, m in schema.TYPES[t]['attrs'] if k in ('num', 'fdoubl', 'status', 'uvari') and not m] if cands else []
-            if not cands or not numk:
+            numk = [(kw, k) for kw, lab, k, m in schema.TYPES[t]['attrs'] if k in ('num', 'fdoubl', 'status', 'uvari') and not m]
+            if not numk:
                 return {'evals': 0, 'violations': [], 'obs': {'not-applicable': 1}, 'sigs': [], 'sample': None}
+            cands = [(i, o) for i, o in enumerate(ops[:pos]) if o['op'] == t]
+            if not cands:
+                # make sure there is an object of this type to assign to (a valid one, appended to the base history)
+                if t in ('origin', 'channel', 'frame'):
+                    return {'evals': 0, 'violations': [], 'obs': {'not-applicable': 1}, 'sigs': [], 'sample': None}
+                base['ops'].append({'op': t, 'name': 'ASSIGN-TARGET', 'attrs': {}, 'lf': 0})
+                ops = base['ops']
+                pos = len(ops)
+                cands = [(len(ops) - 1, ops[-1])]
             i, o = r.choice(cands)
             kw, k = r.choice(numk)
             bop = {'op': 'assign', 'target': i, 'target_op': t, 'kw': kw, 'part': 'value', 'value': 'not a number'}
